@@ -202,6 +202,10 @@ func runCase(r *hx.Run, c hx.Case) {
 			return
 		}
 		spec.Boundary = "predefined-boundary-verif"
+	case "middleware":
+		// a middleware that changes the signed entity (appends a footer to the text parts): it has to run before the
+		// message is signed, the emitted first part is what was signed
+		spec.Middlewares = []mail.Middleware{bytex.FooterMiddleware{}}
 	case "longsubject":
 		spec.Gen[0].V = []string{strings.Repeat("a long subject that must be folded ", 6)}
 	}
@@ -269,8 +273,8 @@ func runCase(r *hx.Run, c hx.Case) {
 		return
 	}
 	modelSpec := &spec
-	if hdrvar == "afterskip" || hdrvar == "flaky" {
-		modelSpec = nil // the extra render is outside the single-render model case
+	if hdrvar == "afterskip" || hdrvar == "flaky" || hdrvar == "middleware" {
+		modelSpec = nil // the extra render is outside the single-render model case (middleware: the Msg changes inside WriteTo)
 	}
 	if hdrvar == "flaky" && len(m.GetParts()) > 0 {
 		// a source that is temporarily unavailable: the first call of the first part's producer fails after a few
@@ -404,7 +408,7 @@ func Run(r *hx.Run, replay []hx.Case) {
 	txt := [][]byte{[]byte("Hello signed world\r\n"), []byte("line with = and trailing blank \r\n.dot\r\n"), []byte("\xc3\xa4 UTF-8 text\r\nsecond\r\n"), []byte("no final newline")}
 	bin := [][]byte{[]byte("\x00\x01binary\xff"), bytes.Repeat([]byte("0123456789"), 30)}
 	encs := []string{"quoted-printable", "base64", "8bit"}
-	hdrvars := []string{"none", "emptygen", "ccignore", "toignore", "preform", "multiline", "lfmulti", "longsubject", "afterskip", "flaky", "fixedb"}
+	hdrvars := []string{"none", "emptygen", "ccignore", "toignore", "preform", "multiline", "lfmulti", "longsubject", "afterskip", "flaky", "fixedb", "middleware"}
 	names := []string{"a.bin", "a long file name that makes the disposition header exceed the folding limit.pdf", "na\xc3\xafve.txt"}
 	ci := 0
 	for n := 0; n <= 2; n++ {
